@@ -24,6 +24,7 @@ CallsMatch(r, cs) ==
 TIni == /\ Ev.e = "Ini"
         /\ Ini(Ev.o, Ev.sys, Ev.nx, Ev.nrhos, Ev.nsc, Ev.t4)
         /\ Ev.eact = Ev.sys                       \* re-initialisation: the in-step view aliases the fresh state
+        /\ Ev.cacheclear                          \* ... and the last-pointer cache is cleared (Ini sets lastE = lastD = 0)
 TSwitch == Ev.e = "Switch" /\ SetSwitch(Ev.o, Ev.k, Ev.b)
 TSetAny == Ev.e = "SetAny" /\ SetAny(Ev.o, Ev.b)
 \* the driver's buffers are learnt from the right-hand sides it issues
